@@ -262,7 +262,7 @@ def run(tier, seed):
     errs, cov = scan_sites()
     hs = harnesses(tier, seed)
     from .. import step, outer, runstart
-    hs = hs + step.harnesses_for('C02', tier, seed) + outer.outer_harnesses(tier, seed, 'C02') + runstart.start_harnesses(tier, seed, 'C02')
+    hs = hs + step.harnesses_for('C02', tier, seed) + step.action_harnesses(tier, seed, 'C02') + outer.outer_harnesses(tier, seed, 'C02') + runstart.start_harnesses(tier, seed, 'C02')
     return run_property(
         'C02', hs, tier, seed, extra_errors=errs, extra_cov={'call_site_scan': cov},
         explanation="Symbolic execution (z3, linear integer arithmetic + UF) of the real evaluate_objective, the x0-sampling block "
